@@ -524,5 +524,20 @@ theorem regOK_of_lf (reg : Registry) (h : regLF reg = true) : RegOK reg (regNeed
       exact lookup_bound reg k _ ht h
     · exact ih nodes hg
 
+/-- Fuel that suffices for a template of a registry whose templates need at most `R` each: the include limit times `R`
+    on top of the template's own need. -/
+def treeNeedIncl (R : Nat) (nodes : List Node) : Nat := needSeq nodes + 1 + maxIncDepth * R
+
+/-- The fuel the driver runs a rendering with: the proved bound where a theorem applies (then no constant is involved
+    at all) — the tree's own need when it has neither counter loops nor includes, the bound with includes when no
+    template of the registry has a counter loop — and the session's constant otherwise. -/
+def fuelFor (reg : Registry) (key : Bytes) (dflt : Nat) : Nat :=
+  match reg.lookup key with
+  | some nodes =>
+    if plainSeq nodes then treeNeed nodes
+    else if regLF reg then treeNeedIncl (regNeed reg) nodes
+    else dflt
+  | none => dflt
+
 end TermIncl
 end DyntplV
